@@ -180,14 +180,19 @@ def match_dihedral_interaction_types(atoms, interaction_dict):
                 ('X', 'X', 2, 3),
                 (0, 'X', 'X', 3),
                 ('X', 1, 'X', 3),
-                ('X', 'X', 'X', 3)]
+                ('X', 'X', 'X', 3),
+                ('X', 1, 'X', 'X'),
+                ('X', 'X', 'X', 'X')]
 
+    # grompp matches the atoms in both directions, so each pattern is
+    # tried on the atoms as listed and on the reversed atoms
     for pattern in patterns:
-        key = _wildcard_dih(atoms, pattern)
-        if key in interaction_dict:
-            return key
-        elif key[::-1] in interaction_dict:
-            return key[::-1]
+        for directed_atoms in (atoms, atoms[::-1]):
+            key = _wildcard_dih(directed_atoms, pattern)
+            if key in interaction_dict:
+                return key
+            elif key[::-1] in interaction_dict:
+                return key[::-1]
 
     return None
 
